@@ -150,7 +150,7 @@ def run_s3(case):
     st_ = Stepper()
     st_.handler = lambda n, phase, label, target, info: sch.step(phase, label, target, info)
     state = {"inside": [], "overlaps": [], "attempting": set(), "contended": False, "bad_held": [], "owner": None, "superseded": set(), "lapsed": False, "log_pos": 0,
-             "takeovers": [], "held_calls": [], "acquiring": set(), "resurrected": []}
+             "takeovers": [], "held_calls": [], "acquiring": set(), "resurrected": [], "foreign_deletes": []}
     with world.env(st_), virtual_time(sch, case.get("seed", 0)) as vt:
         import datashard.lock_provider as LP
 
@@ -183,6 +183,9 @@ def run_s3(case):
                     state["deleted_by"] = state.get("current_actor")
                     if prev != state.get("current_actor_prov"):
                         state["superseded"].add(prev)
+                        if prev != "?" and (inf.get("prev_age_s") or 0) <= LEASE:
+                            # somebody removed a lock object that carried ANOTHER contender's id and whose lease had not lapsed
+                            state["foreign_deletes"].append((state.get("current_actor_prov"), prev, inf.get("prev_age_s")))
             state["log_pos"] = len(fake.log)
 
         def on_event(a, phase, label, target, info):
@@ -192,6 +195,13 @@ def run_s3(case):
 
                 state["orphaned"] = True
                 raise client_error("InternalError", "DeleteObject", 500)
+            if phase == "before" and label.startswith("s3:get") and state.get("fail_get_for") is not None and getattr(a, "prov", None) == state["fail_get_for"]:
+                # ONE transient error (503) on the read-back inside this contender's release(): ownership is unknown, nothing may be deleted on a guess
+                from ..fakes3 import client_error
+
+                state["fail_get_for"] = None
+                state["readback_failed"] = True
+                raise client_error("SlowDown", "GetObject", 503)
             if phase == "after":
                 state["current_actor_prov"] = getattr(a, "prov", None)
                 scan_log()
@@ -253,12 +263,15 @@ def run_s3(case):
                 state["inside"].remove(i)
                 if spec.get("fail_release") and rnd == 0:
                     state["fail_delete_for"] = i
+                if spec.get("fail_readback") and rnd == 0:
+                    state["fail_get_for"] = i
                 try:
                     p.release()
                 except Exception:
                     state["release_raised"] = True
                 finally:
                     state["fail_delete_for"] = None
+                    state["fail_get_for"] = None
                 state["attempting"].discard(i)
                 if p.is_held() and not spec.get("fail_release"):
                     state["bad_held"].append((i, "is_held() True after release"))
@@ -319,6 +332,10 @@ def run_s3(case):
             out["violations"].append(("s3/unconditional-write-changed-owner", f"an unconditional PUT replaced owner {prev} by {new}"))
         elif age is not None and age <= LEASE:
             out["violations"].append(("s3/takeover-of-live-lock", f"contender {new} took the lock over from {prev} although the object was only {age:.0f}s old at landing (lease {LEASE}s)"))
+    for by, prev, age in state["foreign_deletes"]:
+        out["violations"].append(("s3/live-lock-of-another-holder-deleted", f"contender {by} deleted the lock object while it carried contender {prev}'s id and was {age:.0f}s old (lease {LEASE}s)"))
+    if state.get("readback_failed"):
+        out["labels"].append("release-readback-failed")
     for i, what in state["bad_held"]:
         out["violations"].append(("s3/is_held-wrong", f"contender {i}: {what}"))
     for i, cond in state["resurrected"]:
@@ -493,6 +510,8 @@ FIXED = [
     {"kind": "s3", "timeout": 8.0, "contenders": [{"hold": 0.5}, {}], "extras": [{"kind": "age", "seconds": 120}, {"kind": "renew", "of": 0}, {"kind": "probe", "of": 0}]},
     {"kind": "s3", "timeout": 4.0, "contenders": [{"hold": 1000.0}, {}], "extras": [{"kind": "age", "seconds": 30}]},
     {"kind": "s3", "timeout": 8.0, "contenders": [{"rounds": 2, "fail_release": True}, {}], "extras": [{"kind": "age", "seconds": 120}]},
+    {"kind": "s3", "timeout": 8.0, "contenders": [{"hold": 0.5, "fail_readback": True}, {"hold": 0.5}], "extras": [{"kind": "age", "seconds": 120}]},
+    {"kind": "s3", "timeout": 8.0, "contenders": [{"hold": 0.5, "fail_readback": True}, {"hold": 0.5}, {}], "extras": [{"kind": "age", "seconds": 120}]},
     # the same provider holds the lock in two successive tenures while a contender that saw the FIRST one expired is still on its way
     {"kind": "s3", "timeout": 8.0, "contenders": [{"rounds": 2}, {}], "extras": [{"kind": "age", "seconds": 120}]},
 ]
@@ -560,7 +579,7 @@ def pct_case(draw):
         lock_age = draw(st.sampled_from([0, 0, 400, 86400]))
     else:
         cont = [{"hold": draw(st.sampled_from([0.0, 0.5])), "renew": draw(st.booleans()), "rounds": draw(st.sampled_from([1, 1, 2])),
-                 "fail_release": draw(st.integers(0, 3)) == 0} for _ in range(n)]
+                 "fail_release": draw(st.integers(0, 3)) == 0, "fail_readback": draw(st.integers(0, 3)) == 0} for _ in range(n)]
         extras = []
         for _ in range(draw(st.integers(0, 3))):
             k = draw(st.sampled_from(["age", "renew", "probe"]))
